@@ -71,6 +71,7 @@ def gen_case(rng: Rng, i: int, tier: str):
         case["password"] = ("pw-%d" % r.randrange(1000)) if r.chance(0.3) else None
         case["tree2"] = tree.gen_tree(r, maxdepth=2, nmax=4, name_style="ascii", links=False, block=32768, maxlen=2000)
         case["dotname"] = r.chance(0.3)
+        case["append_two"] = rng.sub("a2").chance(0.5)
     elif kind == "volumes":
         case["size"] = r.pick(SIZES_OK) if r.chance(0.75) else r.pick(SIZES_BAD)
     else:
@@ -209,7 +210,12 @@ def run_case(case):
                     raise _Done()
                 # append a second tree
                 tree.build_tree(os.path.join(work, "more"), case["tree2"])
-                st, out, err = cli(["a", base + ".7z", "more"])
+                two_args = bool(case.get("append_two"))
+                if two_args:
+                    with open(os.path.join(work, "three.txt"), "w") as f3:
+                        f3.write("third argument\n")
+                    os.utime(os.path.join(work, "three.txt"), (1000000000, 1000000000))
+                st, out, err = cli(["a", base + ".7z", "more"] + (["three.txt"] if two_args else []))
                 if st != 0:
                     viol("append_failed", "a", "'a' exit %r: %r" % (st, (out + err)[-300:]))
                 else:
@@ -224,6 +230,8 @@ def run_case(case):
                             if why:
                                 viol("extracted_tree_differs", "c+a+x", "after c, a, x: %s: %s" % (name, why), after_append=True)
                                 break
+                        if two_args and not os.path.isfile(os.path.join(odir2, "three.txt")):
+                            viol("extracted_tree_differs", "c+a+x", "'a' with two sources exited 0 but the second one (three.txt) is not in the archive", after_append=True)
                 st, out, err = cli(["i"])
                 if st != 0 or "7zAES" not in out:
                     viol("info_failed", "i", "'i' exit %r" % st)
